@@ -154,6 +154,11 @@ func (m *Machine) chooseG(en []*G, cur *G) int {
 	if len(en) == 1 {
 		return 0
 	}
+	if m.Opt.Preemptions < 0 {
+		// preemption bound -1: one fixed schedule (oldest enabled goroutine runs next); for
+		// sequential contracts of functions that use worker goroutines internally
+		return 0
+	}
 	return m.Choose(len(en), "sched")
 }
 
